@@ -951,6 +951,7 @@ func runCase(input string) string {
 	if persistedFailures.Load() > 20 {
 		attempts = 2 // the tree is broken beyond doubt: do not spend minutes on confirming every case five times
 	}
+	best, extra := "", 0
 	for attempt := 0; attempt < attempts; attempt++ {
 		agg := &errAggregator{}
 		if perr == nil && c.rht != "-" {
@@ -971,6 +972,21 @@ func runCase(input string) string {
 			fmt.Fprintf(os.Stderr, "retry %d: env=%q net=%q control=%q obs=%s\n", attempt, env, neterr, control, drv.Trunc(obs, 80))
 		}
 		if env == "" && !unexpectedNet && !strings.Contains(obs, "tun=bad:21") {
+			// More connections than transports although keep-alives are on and the case does not pause: either the case asks for it
+			// (Connection: close, idle limits: the same at every attempt), or the code does not reuse (the same at every attempt), or
+			// the machine starved net/http's write loop for more than the 50 ms the transport waits before it gives a connection up
+			// (maxWriteWaitBeforeConnReuse; seen once in 75000 cases under load average 100). The case is run up to two more
+			// times and the attempt with the fewest connections is reported: what is deterministic stays, what the machine did goes.
+			if perr == nil && reuseSuspect(c, obs) && extra < 2 && attempt < attempts-1 {
+				if best == "" || connsOf(obs) < connsOf(best) {
+					best = obs
+				}
+				extra++
+				continue
+			}
+			if best != "" && connsOf(best) <= connsOf(obs) {
+				return best
+			}
 			return obs
 		}
 		if attempt == attempts-1 {
@@ -983,6 +999,23 @@ func runCase(input string) string {
 		time.Sleep(time.Duration(200<<attempt) * time.Millisecond)
 	}
 	return obs
+}
+
+func connsOf(obs string) int {
+	n, _ := strconv.Atoi(drv.KV(obs)["conns"])
+	return n
+}
+
+// reuseSuspect: keep-alives on, no pauses, and the target saw more connections than the case has transports
+func reuseSuspect(c caseIn, obs string) bool {
+	if !c.ka || c.gap != 0 || c.delay != 0 || !strings.HasPrefix(obs, "n=") {
+		return false
+	}
+	pools := c.inst
+	if c.shared > 0 && c.shared < pools {
+		pools = c.shared
+	}
+	return connsOf(obs) > pools
 }
 
 func runWith(input string, agg *errAggregator) string {
